@@ -143,6 +143,12 @@ def letNames : List Sx → Option (List String)
   | .list _ (.sym n _ :: _) :: r => (letNames r).map (n :: ·)
   | _ => Option.none
 
+/-- the initial-value expressions of a `let` binding list (`binding[1]`) -/
+def letInits : List Sx → List Sx
+  | [] => []
+  | .list _ (_ :: v :: _) :: r => v :: letInits r
+  | _ :: r => letInits r
+
 def fnNames : Sx → Option (List String)
   | .list _ ps => ps.mapM symName?
   | .sym n _ => some [n]
@@ -173,7 +179,8 @@ def resolveGo (sc : Scopes) : Sx → Option (Sx × Scopes)
         match letNames bindings with
         | Option.none => Option.none
         | some names =>
-          match resolveList (predefine (boundScope names) body :: sc) body with
+          -- the initial values are evaluated inside the new frame as well: what they define lives there
+          match resolveList (predefine (predefine (boundScope names) body) (letInits bindings) :: sc) body with
           | some (body', sc') => some (.list true (.op .LET :: .list bw bindings :: body'), sc'.drop 1)
           | Option.none => Option.none
       | _ => Option.none
